@@ -290,11 +290,65 @@ func instrumentBlock(fset *token.FileSet, rel string, b *ast.BlockStmt) bool {
 		}
 		out = append(out, yieldStmt(fset, rel, st.Pos()))
 		did = true
+		if sel, ok := st.(*ast.SelectStmt); ok {
+			if pre := prePoll(fset, rel, sel); pre != nil {
+				out = append(out, pre)
+			}
+		}
 		nested(fset, rel, st)
 		out = append(out, st)
 	}
 	b.List = out
 	return did
+}
+
+// prePoll: a select without default whose cases are all plain receives `<-ch` (channels that are only
+// ever closed: ctx.Done(), cancellation channels) would park the goroutine while it holds the baton.
+// In front of it goes
+//
+//	for verifsimrt.Active() {
+//		ready := false
+//		select { case <-ch1: ready = true; case <-ch2: ready = true; default: }
+//		if ready { break }
+//		verifsimrt.Poll("<site>")
+//	}
+//
+// which hands the baton on until one of the channels is closed; the original select then proceeds at
+// once.  Receiving from a closed channel twice is harmless; selects of any other form are left alone.
+func prePoll(fset *token.FileSet, rel string, sel *ast.SelectStmt) ast.Stmt {
+	var cases []ast.Stmt
+	for _, c := range sel.Body.List {
+		cc, ok := c.(*ast.CommClause)
+		if !ok || cc.Comm == nil {
+			return nil // has a default
+		}
+		es, ok := cc.Comm.(*ast.ExprStmt)
+		if !ok {
+			return nil
+		}
+		ue, ok := es.X.(*ast.UnaryExpr)
+		if !ok || ue.Op != token.ARROW {
+			return nil
+		}
+		cases = append(cases, &ast.CommClause{
+			Comm: &ast.ExprStmt{X: &ast.UnaryExpr{Op: token.ARROW, X: ue.X}},
+			Body: []ast.Stmt{&ast.AssignStmt{Lhs: []ast.Expr{ast.NewIdent("verifReady")}, Tok: token.ASSIGN, Rhs: []ast.Expr{ast.NewIdent("true")}}},
+		})
+	}
+	cases = append(cases, &ast.CommClause{})
+	site := fmt.Sprintf("%s:%d:select", strings.TrimPrefix(rel, "internal/"), fset.Position(sel.Pos()).Line)
+	call := func(fn string, args ...ast.Expr) *ast.CallExpr {
+		return &ast.CallExpr{Fun: &ast.SelectorExpr{X: ast.NewIdent("verifsimrt"), Sel: ast.NewIdent(fn)}, Args: args}
+	}
+	return &ast.ForStmt{
+		Cond: call("Active"),
+		Body: &ast.BlockStmt{List: []ast.Stmt{
+			&ast.AssignStmt{Lhs: []ast.Expr{ast.NewIdent("verifReady")}, Tok: token.DEFINE, Rhs: []ast.Expr{ast.NewIdent("false")}},
+			&ast.SelectStmt{Body: &ast.BlockStmt{List: cases}},
+			&ast.IfStmt{Cond: ast.NewIdent("verifReady"), Body: &ast.BlockStmt{List: []ast.Stmt{&ast.BranchStmt{Tok: token.BREAK}}}},
+			&ast.ExprStmt{X: call("Poll", &ast.BasicLit{Kind: token.STRING, Value: strconv.Quote(site)})},
+		}},
+	}
 }
 
 func nested(fset *token.FileSet, rel string, st ast.Stmt) {
